@@ -1,0 +1,23 @@
+//go:build verif
+
+// Contracts for the verifier in /verif (see /verif/DESIGN.md). Compiled only with the build tag "verif"; adds
+// declarations and comments, changes nothing in the package.
+package server6
+
+// The environment of the server (logger, connection, handler goroutines) does not write the memory the serving loop
+// works on: assumed (A5).
+//@ contract Logger.Printf
+//@   trusted
+
+//@ contract Logger.PrintMessage
+//@   trusted
+
+// Serve: one iteration per datagram (see server4): left only through the read error; an undecodable datagram starts no
+// handler; a decodable one starts exactly one, with the message decoded from this iteration's fresh buffer and the
+// sender as peer.
+//@ contract (*Server).Serve
+//@   requires s != nil && s.conn != nil && s.logger != nil && s.handler != nil
+//@   ensures[returns-on-read-error] result != nil
+//@   after `rbuf := make([]byte, 4096)` let S0 = spawned()
+//@   after `s.logger.Printf("Error parsing DHCPv6 request: %v", err)` assert[undecodable-not-dispatched] spawned() == S0
+//@   after `go s.handler(s.conn, peer, d)` assert[dispatched-once] spawned() == S0 + 1 && d != nil && fresh(rbuf)
